@@ -5,7 +5,7 @@
     [is_ancestor], reflexive): a Section variable for the proofs, and computed from explicit
     parent lists ([dag_ancb]) for running. Index errors ([IndexResult::Err]) are outside the
     model. Definitions only. *)
-From Verif Require Import Base.Prelude Model.Merge.
+From Verif Require Import Base.Prelude Model.Merge Model.C02.
 
 Section Refs.
   Context {A : Type} (eqb : A -> A -> bool) (ancb : A -> A -> bool).
@@ -149,12 +149,9 @@ Section Refs.
   Definition stuck_b (res : target) : bool :=
     match find_pair_to_remove res with None => true | Some _ => false end.
 
-  (** Boolean form of the cancellation rule of C02 (same as [C02.resolves_b]). *)
-  Definition cancels_b (f : target) (v : term) : bool :=
-    (0 <? den teqb f v)%Z &&
-    (forallb (fun w => teqb w v || (den teqb f w =? 0)%Z) f
-     || existsb (fun w => negb (teqb w v) && (den teqb f w <? 0)%Z &&
-                          forallb (fun u => teqb u v || teqb u w || (den teqb f u =? 0)%Z) f) f).
+  (** The cancellation rule of C02 with same-change accepted ([C02.resolves_b], whose
+      meaning is [Proofs.C02.resolves_b_spec]). *)
+  Definition cancels_b (f : target) (v : term) : bool := C02.resolves_b teqb true f v.
 
   (** A resolved result [v] is safe: cancellation leaves only [v], or every other net side is
       an ancestor of [v] and every net base is absent or an ancestor of [v]. *)
